@@ -201,3 +201,50 @@ func VerifC13RangeIterStep() {
 		cur = new(big.Int).Add(cur, big.NewInt(step))
 	}
 }
+
+// The length of range(start, stop, step) for start and stop anywhere in the
+// word range (a span of more than 2**63 included) and a step from a list of
+// small, large and extreme values: the exact count when it fits a word,
+// OverflowError when it does not; and the last item is start + (len-1)*step.
+//
+//verif:property C13
+//verif:encoding int
+//verif:expect called
+func VerifC13RangeLengthWide() {
+	for _, t := range []*Type{BaseException, ExceptionType, OverflowError, ValueError, IndexError} {
+		_ = t.Ready()
+	}
+	start, stop := verifInt64("start"), verifInt64("stop")
+	steps := []int64{1, 2, 3, 7, 1 << 62, 1<<63 - 1, -1, -2, -3, -(1 << 62), -1 << 63}
+	step := steps[verifChoice("step", len(steps))]
+	o, err := RangeNew(RangeType, Tuple{Int(start), Int(stop), Int(step)}, nil)
+	verifReach("called")
+	// exact length: the number of i >= 0 with start + i*step before stop
+	span := new(big.Int).Sub(big.NewInt(stop), big.NewInt(start))
+	st := big.NewInt(step)
+	if step < 0 {
+		span.Neg(span)
+		st.Neg(st)
+	}
+	n := new(big.Int)
+	if span.Sign() > 0 {
+		n.Add(span, st)
+		n.Sub(n, big.NewInt(1))
+		n.Div(n, st) // ceil(span / |step|)
+	}
+	if !n.IsInt64() {
+		verifAssert(err != nil && c07ErrIs(err, OverflowError), "a range with more items than a word can count is an OverflowError, not a wrong range")
+		return
+	}
+	verifAssert(err == nil, "no error")
+	r := o.(*Range)
+	ln, err := Len(r)
+	verifAssert(err == nil && c07Same(ln, n), "len(range) is exact across the whole word range")
+	if n.Sign() > 0 {
+		last, err := GetItem(r, Int(-1))
+		want := new(big.Int).Sub(n, big.NewInt(1))
+		want.Mul(want, big.NewInt(step))
+		want.Add(want, big.NewInt(start))
+		verifAssert(err == nil && c07Same(last, want), "the last item is start + (len-1)*step")
+	}
+}
